@@ -252,6 +252,12 @@ class BodyAn:
                 elif e[0] == "closure_env":
                     e = ("upvar", p["n"])
                 else:
+                    if e[0] == "local" and "{closure" in p["adt"] and p["n"].startswith("_ref__") and len(self.defs[e[1]]) == 1 and not self.partial[e[1]] \
+                            and self.defs[e[1]][0][2] == "assign" and self.defs[e[1]][0][3].get("agg") == "closure":
+                        # a by-reference capture read through `&mut closure` (an FnMut closure spliced into the loop that
+                        # calls it): the capture slot itself is never reassigned
+                        d_ = self.defs[e[1]][0]
+                        e = self.expr_rvalue(d_[3], (d_[0], d_[1]), depth + 1, env, seen)
                     e = mk_field(e, p["adt"], p["n"])
                     if e[0] == "field" and e[1][0] == "call" and self.prog is not None:
                         # a field of a freshly constructed value (`..Progress::new(a, b)`, `T::new(x).f`): what the
